@@ -64,12 +64,29 @@ class _Norm(ast.NodeTransformer):
             return ast.copy_location(new, node)
         return node
 
+    # N19: a call of a function of the library written with keyword arguments is the positional call, when every definition of
+    # that name in the library has the same parameter list and the keywords fill the next parameters in order
+    def _positional(self, node):
+        fn = node.func.id if isinstance(node.func, ast.Name) else (node.func.attr if isinstance(node.func, ast.Attribute) else None)
+        sig = LIBRARY_SIGNATURES.get(fn)
+        if not sig or not node.keywords or any(k.arg is None for k in node.keywords) or any(isinstance(a, ast.Starred) for a in node.args): return node
+        kws = dict((k.arg, k.value) for k in node.keywords)
+        if len(kws) != len(node.keywords): return node
+        args = list(node.args)
+        i = len(args)
+        while i < len(sig) and sig[i] in kws:
+            args.append(kws.pop(sig[i])); i += 1
+        if kws: return node            # a keyword that does not continue the positional prefix: leave the call as written
+        node.args, node.keywords = args, []
+        return node
+
     # N9: comprehension spelling.  A reducer applied to a generator expression is written with the list comprehension
     # (sum(x for ..) -> sum([x for ..])); a set / dict comprehension is written as set([..]) / dict([(k, v) ..]).
     REDUCERS = ('sum', 'min', 'max', 'any', 'all', 'set', 'tuple', 'sorted', 'list', 'frozenset', 'dict', 'join')
 
     def visit_Call(self, node):
         self.generic_visit(node)
+        node = self._positional(node)
         fn = node.func.id if isinstance(node.func, ast.Name) else (node.func.attr if isinstance(node.func, ast.Attribute) else None)
         if fn in self.REDUCERS and node.args and isinstance(node.args[0], ast.GeneratorExp):
             g = node.args[0]
@@ -82,6 +99,16 @@ class _Norm(ast.NodeTransformer):
             test = ast.copy_location(ast.Compare(left=K, ops=[ast.In()], comparators=[X]), node)
             sub = ast.copy_location(ast.Subscript(value=copy.deepcopy(X), slice=copy.deepcopy(K), ctx=ast.Load()), node)
             return ast.copy_location(ast.IfExp(test=test, body=sub, orelse=D), node)
+        # N21: `any([b is X for b in L])` (an identity search) is the membership test `X in L`
+        if isinstance(node.func, ast.Name) and fn == 'any' and len(node.args) == 1 and not node.keywords and isinstance(node.args[0], ast.ListComp):
+            lc = node.args[0]
+            if len(lc.generators) == 1 and not lc.generators[0].ifs and isinstance(lc.generators[0].target, ast.Name) and isinstance(lc.elt, ast.Compare) \
+               and len(lc.elt.ops) == 1 and isinstance(lc.elt.ops[0], ast.Is):
+                v_ = lc.generators[0].target.id
+                a_, b_ = lc.elt.left, lc.elt.comparators[0]
+                other = b_ if (isinstance(a_, ast.Name) and a_.id == v_) else (a_ if (isinstance(b_, ast.Name) and b_.id == v_) else None)
+                if other is not None and _sel_simple(other) and not any(isinstance(x, ast.Name) and x.id == v_ for x in ast.walk(other)):
+                    return ast.copy_location(ast.Compare(left=other, ops=[ast.In()], comparators=[lc.generators[0].iter]), node)
         if isinstance(node.func, ast.Name) and fn == 'getattr' and len(node.args) == 2 and not node.keywords and isinstance(node.args[1], ast.Constant) \
            and isinstance(node.args[1].value, str) and node.args[1].value.isidentifier() and _sel_simple(node.args[0]):
             return ast.copy_location(ast.Attribute(value=node.args[0], attr=node.args[1].value, ctx=ast.Load()), node)
@@ -184,6 +211,23 @@ class _Norm(ast.NodeTransformer):
                 new = ast.copy_location(ast.If(test=st.test, body=rest, orelse=st.orelse), st)
                 stmts = stmts[:k] + [self.visit_If_only(new)]
                 break
+        # N20: `x = D.get(K)` (arrived as `D[K] if K in D else None`: N14) followed by `if x is not None: B else: E` is
+        # `if K in D: x = D[K]; B` / `else: x = None; E` (the library never stores None as a value of its by-name dictionaries)
+        for k, st in enumerate(stmts[:-1]):
+            nx = stmts[k + 1]
+            if isinstance(st, ast.Assign) and len(st.targets) == 1 and isinstance(st.targets[0], ast.Name) and isinstance(st.value, ast.IfExp) and \
+               isinstance(st.value.test, ast.Compare) and len(st.value.test.ops) == 1 and isinstance(st.value.test.ops[0], ast.In) and \
+               isinstance(st.value.orelse, ast.Constant) and st.value.orelse.value is None and isinstance(st.value.body, ast.Subscript) and \
+               isinstance(nx, ast.If) and isinstance(nx.test, ast.Compare) and len(nx.test.ops) == 1 and isinstance(nx.test.ops[0], (ast.IsNot, ast.Is)) and \
+               isinstance(nx.test.left, ast.Name) and nx.test.left.id == st.targets[0].id and isinstance(nx.test.comparators[0], ast.Constant) and \
+               nx.test.comparators[0].value is None:
+                x = st.targets[0].id
+                have = [ast.copy_location(ast.Assign(targets=[ast.Name(id=x, ctx=ast.Store())], value=st.value.body), st)]
+                lack = [ast.copy_location(ast.Assign(targets=[ast.Name(id=x, ctx=ast.Store())], value=st.value.orelse), st)]
+                pos, neg = (nx.body, nx.orelse) if isinstance(nx.test.ops[0], ast.IsNot) else (nx.orelse, nx.body)
+                new = ast.copy_location(ast.If(test=st.value.test, body=have + list(pos), orelse=lack + list(neg)), nx)
+                stmts = stmts[:k] + [ast.fix_missing_locations(new)] + stmts[k + 2:]
+                return self._block(stmts)
         # N18: `try: ...; return X` / `except E: pass` followed by more statements: what follows only runs when E was caught,
         # so it is the handler's body (the nested form of a chain of fallback attempts)
         for k, st in enumerate(stmts[:-1]):
@@ -654,6 +698,27 @@ class _SplitTuples(ast.NodeTransformer):
 
 
 LIBRARY_METHODS, LIBRARY_PROPERTIES = set(), set()      # filled by core.Program for the whole library before any module is normalised
+LIBRARY_SIGNATURES = {}                                  # callable name -> parameter names (without self), when all definitions agree
+
+
+def library_signatures(trees):
+    sigs, clash = {}, set()
+    def add(name, params):
+        if name in sigs and sigs[name] != params: clash.add(name)
+        sigs.setdefault(name, params)
+    for t in trees:
+        for n in ast.walk(t):
+            if isinstance(n, ast.ClassDef):
+                for f in n.body:
+                    if isinstance(f, ast.FunctionDef) and not (f.args.vararg or f.args.kwarg or f.args.kwonlyargs):
+                        ps = [a.arg for a in f.args.args][1:]
+                        add(n.name if f.name == '__init__' else f.name, ps)
+                    elif isinstance(f, ast.FunctionDef): clash.add(n.name if f.name == '__init__' else f.name)
+        for f in t.body if isinstance(t, ast.Module) else []:
+            if isinstance(f, ast.FunctionDef):
+                if f.args.vararg or f.args.kwarg or f.args.kwonlyargs: clash.add(f.name)
+                else: add(f.name, [a.arg for a in f.args.args])
+    return dict((k, v) for k, v in sigs.items() if k not in clash)
 
 
 def alias_locals(tree):
